@@ -36,6 +36,7 @@ type Profile struct {
 	NumericKeys  bool // allow N / B typed keys
 	FinalObserve bool
 	DelBoundary  int // percent of pages ops that delete the boundary item
+	FewHash      bool // two partition values only: many items share a partition
 	RichValues   bool // items carry deep value trees of all ten types incl. boundary members
 }
 
@@ -62,6 +63,9 @@ var vVals = []string{"0", "1", "2", "3", "4", "5"}
 func (g *HistGen) keyVal(t string, pool []string) AV {
 	switch t {
 	case "N":
+		if g.p.FewHash && len(pool) <= 2 {
+			return AV{T: "N", V: []byte(pick(g.r, []string{"1", "2"}))}
+		}
 		return AV{T: "N", V: []byte(pick(g.r, rangeValsNum))}
 	case "B":
 		return AV{T: "B", V: []byte(pick(g.r, pool))}
@@ -70,6 +74,9 @@ func (g *HistGen) keyVal(t string, pool []string) AV {
 }
 
 func (g *HistGen) hashPool() []string {
+	if g.p.FewHash {
+		return []string{"a", "b"} // few partitions, many items in each
+	}
 	if g.p.DotKeys {
 		return hashValsDot
 	}
@@ -890,7 +897,7 @@ func (g *HistGen) genNative() {
 		g.ops = append(g.ops, &Op{Op: "activateNative"})
 		g.native = true
 	case 1:
-		if g.r.Chance(30) {
+		if g.r.Chance(60) {
 			g.ops = append(g.ops, &Op{Op: "setInterpreter"})
 			g.regs = nil
 		}
